@@ -30,6 +30,8 @@ package couchbase
 //@ props C19
 //@ requires h != nil
 //@ ensures.once[C19] calls("go:couchbase.(*healthCheck).run") <= 1
+//@ ensures.second_start_changes_nothing[C19] old(oncedone(h.startOnce)) ==> h.cancelFunc == old(h.cancelFunc) && calls("go:couchbase.(*healthCheck).run") == 0
+//@ ensures.first_start_runs_the_loop[C19] !old(oncedone(h.startOnce)) ==> calls("go:couchbase.(*healthCheck).run") == 1 && h.cancelFunc != nil
 //@ modifies calls("go:couchbase.(*healthCheck).run"), h.cancelFunc
 
 //@ func (*healthCheck).run
